@@ -171,6 +171,9 @@ def teval(t, leaf=None, sv=None):
         return ev(t[1])[ev(t[2])]
     if k == 'call' and t[1] == 'builtins.len':
         return len(ev(t[3][0][1]))
+    if k == 'call' and t[1] == 'builtins.sum' and len(t[3]) == 1 and t[3][0][1][0] in ('tuple', 'list') \
+            and not any(isinstance(x, tuple) and x and x[0] in ('star', 'when', 'each', 'acc') for x in t[3][0][1][1]):
+        return sum(ev(x) for x in t[3][0][1][1])
     if k == 'call' and t[1] in ('builtins.int', 'builtins.bool') and len(t[3]) == 1:
         v = ev(t[3][0][1])
         return int(v) if t[1] == 'builtins.int' else bool(v)
